@@ -791,6 +791,33 @@ impl HashColumn {
 		Ok(None)
 	}
 
+	/// Remove the entries that map the partial key of `key` to `address` from the index
+	/// tables that are queued for reindexing. Called when the value at `address` is removed
+	/// or moved: the key may have an entry in the current index and another one in a queued
+	/// index (a reindex batch copies entries and leaves the originals until the table is
+	/// dropped). An entry left behind would point to a free slot, or to whatever value takes
+	/// that slot next. Entries with a different address belong to other keys and stay.
+	fn remove_from_queued_indexes(
+		key: &Key,
+		address: Address,
+		reindex: &Reindex,
+		log: &mut LogWriter,
+	) -> Result<()> {
+		for entry in &reindex.queue {
+			if let ReindexEntry::Index(index) = entry {
+				let (mut existing_entry, mut sub_index) = index.get(key, 0, log)?;
+				while !existing_entry.is_empty() {
+					if existing_entry.address(index.id.index_bits()) == address {
+						log::trace!(target: "parity-db", "{}: Removing from queued index {}", index.id, hex(key));
+						index.write_remove_plan(key, sub_index, log)?;
+					}
+					(existing_entry, sub_index) = index.get(key, sub_index + 1, log)?;
+				}
+			}
+		}
+		Ok(())
+	}
+
 	pub fn write_plan(
 		&self,
 		change: &Operation<Key, RcValue>,
@@ -802,6 +829,7 @@ impl HashColumn {
 		if let Some((table, sub_index, existing_address)) = existing {
 			let (outcome, pending) = self.write_plan_existing(
 				&tables,
+				&reindex,
 				change,
 				log,
 				table,
@@ -859,6 +887,7 @@ impl HashColumn {
 	fn write_plan_existing(
 		&self,
 		tables: &Tables,
+		reindex: &Reindex,
 		change: &Operation<Key, RcValue>,
 		log: &mut LogWriter,
 		index: &IndexTable,
@@ -882,9 +911,16 @@ impl HashColumn {
 			(None, Some(value_address)) => {
 				// If it was found in an older index we just insert a new entry. Reindex won't
 				// overwrite it.
-				let sub_index = if index.id == tables.index.id { Some(sub_index) } else { None };
+				let replace = if index.id == tables.index.id { Some(sub_index) } else { None };
+				let outcome = tables.index.write_insert_plan(key, value_address, replace, log)?;
+				// The old slot is free now. Unless the entry was replaced in place, remove it,
+				// along with any copy of it in the queued indexes.
+				if replace.is_none() || matches!(outcome, PlanOutcome::NeedReindex) {
+					index.write_remove_plan(key, sub_index, log)?;
+				}
+				Self::remove_from_queued_indexes(key, existing_address, reindex, log)?;
 				// When the entry does not fit the caller has to grow the index and insert it.
-				Ok(match tables.index.write_insert_plan(key, value_address, sub_index, log)? {
+				Ok(match outcome {
 					PlanOutcome::NeedReindex => (PlanOutcome::NeedReindex, Some(value_address)),
 					outcome => (outcome, None),
 				})
@@ -892,6 +928,7 @@ impl HashColumn {
 			(None, None) => {
 				log::trace!(target: "parity-db", "{}: Removing from index {}", tables.index.id, hex(key));
 				index.write_remove_plan(key, sub_index, log)?;
+				Self::remove_from_queued_indexes(key, existing_address, reindex, log)?;
 				Ok((PlanOutcome::Written, None))
 			},
 		}
